@@ -139,6 +139,7 @@ type Engine struct {
 
 	dropGood    time.Duration
 	sinceCommit bool
+	flushing    bool
 	stopped     bool
 }
 
@@ -777,7 +778,18 @@ func (e *Engine) Submit(m *MTx, parkBefore, parkAfter bool) *Submission {
 	if !parkBefore && !parkAfter && e.Cfg.Tight && e.entersQueueNow(m) && e.otherQueuedAddr(m.From) {
 		parkBefore = true
 	}
-	f.sub = e.W.Start(e.subSeq, m.Tx, parkBefore, parkAfter)
+	var onBasic func()
+	if t, ok := m.Tx.(*types.Transaction); ok && t.To() != nil {
+		to := *t.To()
+		onBasic = func() {
+			// the gas rule was just evaluated for what the destination is now
+			m.ToCode = e.hasCode(to)
+			if x := e.byHash[m.Hash]; x != nil {
+				x.ToCode = m.ToCode
+			}
+		}
+	}
+	f.sub = e.W.StartHook(e.subSeq, m.Tx, parkBefore, parkAfter, onBasic)
 	f.sub.Tag = [3]bool{staleAtStart, committedAtStart, spentAtStart}
 	if m.Pure {
 		e.Tracef("start #%d pure %s %s ki=%s", e.subSeq, m.Kind, short(m.Hash), kiLabel(m.KIs))
@@ -1166,6 +1178,16 @@ func (e *Engine) externalBlock() {
 			k--
 		}
 		for _, tx := range off[:k] {
+			// (an honest proposer's block: what the listed code-change finding
+			// left poisoned in this node's offer is not copied)
+			if m := e.byHash[tx.Hash()]; m != nil && !e.validNow(m) {
+				break
+			}
+			if m := e.byHash[tx.Hash()]; m != nil {
+				if t, ok := tx.(*types.Transaction); ok && t.To() != nil && e.hasCode(*t.To()) != m.ToCode {
+					break
+				}
+			}
 			if !led.ApplyTx(tx) {
 				break
 			}
@@ -1283,7 +1305,19 @@ func (e *Engine) externalBlock() {
 	txs = append(txs, tail...)
 	b, site, msg, panicked := e.W.Propose(0, txs, true)
 	if panicked {
-		e.C.HarnessTrouble("external block did not execute at %s: %s (%s)", site, msg, e.describe(b))
+		// name the first transaction the executor refuses
+		culprit := ""
+		for k := 1; k <= len(txs); k++ {
+			if _, _, _, p := e.W.Propose(0, txs[:k], true); p {
+				culprit = e.txLabel(txs[k-1])
+				if m := e.byHash[txs[k-1].Hash()]; m != nil {
+					culprit += " kind " + m.Kind + fmt.Sprintf(" toCode=%v now=%v", m.ToCode, e.hasCode(m.Target))
+				}
+				break
+			}
+		}
+		e.Tracef("external block refused at %s", culprit)
+		e.C.HarnessTrouble("external block did not execute at %s: %s (%s; first refused: %s)", site, msg, e.describe(b), culprit)
 		e.Stop()
 		return
 	}
